@@ -355,6 +355,216 @@ def replay_c(o):
 
 
 # ---------------------------------------------------------------------------------------------
+# D. fraction2float on the fraction float2fraction returns, modular (mpmath and mpf2float replaced by their contracts)
+# ---------------------------------------------------------------------------------------------
+class MpfIntD:
+    """contract of mpmath.mp.mpf(n) for a Python int n: the multiprecision number RN_prec(n), prec the working precision
+    at the time of the call; EXACT when the odd part of n has at most prec bits"""
+
+    def __init__(self, n, prec):
+        self.n, self.prec = n, prec
+
+    def __truediv__(self, d):
+        return MpfQuotD(self.n, d, self.prec, _MpD.cur.prec)
+
+
+class MpfQuotD:
+    """contract of mpf / int: RN_prec(value / d); EXACT when the quotient has at most prec significant bits"""
+
+    def __init__(self, num, den, prec_mpf, prec_div):
+        self.num, self.den, self.prec_mpf, self.prec_div = num, den, prec_mpf, prec_div
+
+
+class _WorkPrecD:
+    def __init__(self, mp_, prec):
+        self.mp, self.new = mp_, prec
+
+    def __enter__(self):
+        self.old, self.mp.prec = self.mp.prec, self.new
+
+    def __exit__(self, *a):
+        self.mp.prec = self.old
+        return False
+
+
+class _MpD:
+    cur = None
+
+    def __init__(self):
+        self.prec = 53  # mpmath's default working precision
+        _MpD.cur = self
+
+    def workprec(self, prec):
+        return _WorkPrecD(self, prec)
+
+    def mpf(self, n):
+        return MpfIntD(n, self.prec)
+
+
+class Mpf2FloatCallD:
+    """the call mpf2float(dtype, value, ...) - its contract (C15): the float of type dtype nearest to value"""
+
+    def __init__(self, dtype, value, args, kwargs):
+        self.dtype, self.value, self.args, self.kwargs = dtype, value, args, kwargs
+
+
+def build_fraction2float(arg):
+    """fraction2float(t, q) for q = the fraction of a finite float x of type t (postcondition of float2fraction, part A:
+    value(q) == value(x); fractions.Fraction keeps q in lowest terms with a positive denominator).  Two input classes:
+      int    - x is an integer: q = (+-significand shifted, 1); one run per exponent field with x >= 1 in magnitude, and zero;
+      nonint - x is not an integer: q = (num, denom) with num != 0, denom > 1, |num| of at most p significant bits (ghost:
+               num / denom == x); one run per type.
+    Goal per path: the value returned is x - either the constant returned compares equal to x, or the result is the call
+    mpf2float(t, mpf(num) / denom) made under a working precision of at least p bits with no further arguments: mpf(num)
+    and the division by a power of two are then exact (contracts above) and mpf2float returns the nearest float of type t,
+    which is x itself (contract proved in C15)."""
+    tn, E, cls = arg
+    t = getattr(numpy, tn)
+    import functional_algorithms.utils as U
+
+    eb, sb = FMT[t]
+    W = WIDTH[t]
+    bias = (1 << (eb - 1)) - 1
+    g = reglobal(U)
+    g["mpf2float"] = lambda dtype, value, *a, **kw: Mpf2FloatCallD(dtype, value, a, kw)
+    f = g["fraction2float"]
+    sgn = z3.BitVec("s", 1)
+    F = z3.BitVec("F", sb - 1)
+    num_in = z3.BitVec("num", W)
+    den_in = z3.BitVec("den", W)
+    pre = []
+    if cls == "int":
+        q = (1 - bias - (sb - 1)) if E == 0 else (E - bias - (sb - 1))
+        sigW = z3.ZeroExt(W - (sb - 1), F) + (z3.BitVecVal(1 << (sb - 1), W) if E else z3.BitVecVal(0, W))
+        if q >= 0:
+            mag = sigW << q
+        elif -q < sb:
+            mag = z3.LShR(sigW, -q)
+            pre.append(z3.Extract(-q - 1, 0, F) == 0)  # the bits below the binary point are zero: x is an integer
+        else:
+            mag = z3.BitVecVal(0, W)
+            pre.append(F == 0)  # a subnormal is an integer only when it is zero
+        numv = z3.If(sgn == 1, -mag, mag)
+        denv = 1
+        base = "C13/utils.fraction2float/%s/E=%d/int" % (tn, E)
+    else:
+        numv = num_in
+        denv = SymInt(den_in)
+        lim = z3.BitVecVal(1 << (W - 3), W)
+        pre += [num_in != 0, den_in > 1, den_in < lim, num_in < lim, num_in > -lim]
+        base = "C13/utils.fraction2float/%s/nonint" % tn
+
+    def run(e):
+        for c in pre:
+            e.assume(c)
+        g["mpmath"] = type("MpmathShadowD", (), dict(mp=_MpD()))
+        return f(t, SymFrac(SymInt(numv), denv))
+
+    SymFrac.numerator = property(lambda self: self.num)
+    SymFrac.denominator = property(lambda self: self.den)
+    out = []
+    try:
+        paths = explore(run, int_width=W)
+    except Exception:
+        return [dict(id=base + "/engine", error=traceback.format_exc()[-800:])]
+    xzero = z3.And(F == 0, z3.BoolVal(E == 0)) if cls == "int" else z3.BoolVal(False)
+    for p in paths:
+        pid = "%s/path=%s" % (base, p.sig())
+        s = z3.Solver()
+        for c in pre:
+            s.add(c)
+        for c in p.pc:
+            s.add(c)
+        s.add(F == F, sgn == sgn)
+        r = p.result
+        if p.exc is not None:
+            goal, why = z3.BoolVal(False), "raises %r" % (p.exc,)
+        elif isinstance(r, Mpf2FloatCallD):
+            v = r.value
+            ok = r.dtype is t and not r.args and not r.kwargs and isinstance(v, MpfQuotD) and isinstance(v.prec_mpf, int) and isinstance(v.prec_div, int) and v.prec_mpf >= sb and v.prec_div >= sb
+            if ok:
+                goal = z3.And(_bv(v.num, W) == numv, _bv(v.den, W) == _bv(denv, W))
+                why = "mpf2float(%s, mpf(num)/denom) under %d / %d bits of working precision" % (tn, v.prec_mpf, v.prec_div)
+            else:
+                goal, why = z3.BoolVal(False), "mpf2float called with dtype %r, extra arguments %r %r, value %s, precisions %r %r (at least %d bits and the fraction itself are needed)" % (getattr(r.dtype, "__name__", r.dtype), r.args, r.kwargs, type(v).__name__, getattr(v, "prec_mpf", None), getattr(v, "prec_div", None), sb)
+        elif isinstance(r, numpy.floating) and type(r) is t and r == 0:
+            goal, why = xzero, "returns the constant %r: only for x == 0 (a fraction cannot carry the sign of zero)" % (r,)
+        else:
+            goal, why = z3.BoolVal(False), "returns %r: never equal to a finite %s x" % (r, "non-zero" if cls == "nonint" else "integral")
+        s.add(z3.Not(goal))
+        out.append(dict(id=pid + "/roundtrip", smt2=s.to_smt2().replace("(check-sat)", ""), text="fraction2float(float2fraction(x)) is x: " + why))
+        if p.side:
+            s = z3.Solver()
+            for c in pre:
+                s.add(c)
+            for c in p.pc:
+                s.add(c)
+            s.add(z3.Not(z3.And([cond for _, cond in p.side])))
+            out.append(dict(id="%s/int-model-adequate" % pid, smt2=s.to_smt2().replace("(check-sat)", ""), text="no integer operation on this path leaves the %d-bit model (%d side conditions)" % (W, len(p.side))))
+    if not paths:
+        out.append(dict(id=base + "/engine", error="no feasible path: vacuous"))
+    return out
+
+
+def part_d(rep, tier, only=None):
+    fn = ("utils.fraction2float",)
+    rep.under_contract(fn[0], "fraction2float(t, float2fraction(x)) hands mpf2float exactly the fraction, under at least p bits of working precision, or returns a constant equal to x; for every finite x (integers: exponent split, float16 and float32 only - integral float64 values are NOT covered by this part; non-integers: one abstract run per type, float64 included). Callee contracts: mpmath mpf(int), mpf / int (exact when the result fits the working precision), utils.mpf2float (nearest float - proved in C15)")
+    args = []
+    for t in TYPES:
+        eb, sb = FMT[t]
+        bias = (1 << (eb - 1)) - 1
+        args.append((t.__name__, 0, "nonint"))
+        if t is numpy.float64:
+            continue  # integral float64: the path condition carries a 1200-bit negation that z3 needs ~90 s for, per exponent field (1025 of them) - not claimed; covered by the bounded stand-in (part B) only
+        for E in [0] + list(range(bias, (1 << eb) - 1)):
+            args.append((t.__name__, E, "int"))
+    ident = lambda a: "C13/utils.fraction2float/%s/%s" % (a[0], "nonint/" if a[2] == "nonint" else "E=%d/int/" % a[1])
+    if only:
+        args = [a for a in args if only in ident(a)]
+    ctx = mp.get_context("fork")
+    with ctx.Pool(core.NPROC) as pool:
+        for lst in pool.imap_unordered(build_fraction2float, args, chunksize=8):
+            for d in lst:
+                parts = d["id"].split("/")
+                meta = dict(t=parts[2], part="D", E=int(parts[3][2:]) if parts[3].startswith("E=") else None)
+                if "error" in d:
+                    rep.add(core.decided(d["id"], PROP, core.ERROR, functions=fn, text=d["error"]))
+                else:
+                    rep.add(core.smt(d["id"], PROP, d["smt2"], functions=fn, text=d["text"], budget_s=120, meta=meta))
+
+
+def replay_d(o):
+    import functional_algorithms.utils as U
+
+    meta, m = o.meta or {}, o.model or {}
+    if meta.get("part") != "D":
+        return dict(replayed=False, witness_class=None)
+    t = getattr(numpy, meta["t"])
+    eb, sb = FMT[t]
+    cands = []
+    if meta.get("E") is not None and o.model is not None:
+        cands.append((int(m.get("s", {}).get("value", 0)) << (eb + sb - 1)) | (meta["E"] << (sb - 1)) | int(m.get("F", {}).get("value", 0)))
+    else:  # the abstract non-integer class carries no float in its model: try a fixed list of non-integer floats
+        fi = numpy.finfo(t)
+        for v in (0.5, 1.5, -2.75, float(fi.smallest_subnormal), -float(fi.smallest_normal), float(fi.eps), 1 + float(fi.eps), float(fi.max) / 2**(fi.maxexp - 1) , 1 / 3, -1e-3):
+            cands.append(int(t(v).view(UINT[t])))
+    info = dict(witness_class="fraction2float %s %s" % (meta["t"], "int" if meta.get("E") is not None else "nonint"), replayed=False, tried=[])
+    for bits in cands:
+        x = UINT[t](bits).view(t)
+        try:
+            r = U.fraction2float(t, U.float2fraction(x))
+            bad = not (type(r) is t and (same_bits(r, x, t) or (x == 0 and r == 0)))
+            info["tried"].append(dict(x=repr(x), bits=hex(bits), got=repr(r)))
+        except Exception as e:
+            bad = True
+            info["tried"].append(dict(x=repr(x), bits=hex(bits), raised=repr(e)))
+        if bad:
+            info["replayed"] = True
+            break
+    return info
+
+
+# ---------------------------------------------------------------------------------------------
 # B. bounded stand-in
 # ---------------------------------------------------------------------------------------------
 def sample_bits(t, tier, rnd):
@@ -703,8 +913,11 @@ def build(tier, only=None):
         part_a(rep, tier, only)
     if only is None or "float2mpf/" in only:
         part_c(rep, tier, only)
+    if only is None or "fraction2float/" in only:
+        part_d(rep, tier, only)
     if only is None or "bounded" in only:
         part_b(rep, tier)
+    rep.replayers["C13/utils.fraction2float"] = replay_d
     rep.replayers["C13/utils.float2mpf"] = replay_c
     rep.replayers["C13/utils.float2fraction"] = replay_a
     rep.replayers["C13/bounded"] = replay_b
@@ -725,6 +938,8 @@ def replay(path):
         info = replay_a(o)
     elif (o.meta or {}).get("part") == "C":
         info = replay_c(o)
+    elif (o.meta or {}).get("part") == "D":
+        info = replay_d(o)
     else:
         # re-run the named inputs natively
         fails = (o.meta or {}).get("fails") or []
